@@ -99,6 +99,20 @@ CORPUS = {
 (assert (= |q v| ((_ zero_extend 4) |f g|)))
 (assert (exists ((|b c| Int)) (> |b c| 0)))
 ''',
+    # incremental benchmark: set-info lines in the middle of the file
+    'mid-set-info': '''(set-info :source |x|)
+(set-logic QF_BV)
+(declare-const v (_ BitVec 8))
+(declare-const s String)
+(define-fun y () (_ BitVec 8) (bvadd v v))
+(assert (= y v))
+(assert (str.contains s "k"))
+(set-info :status sat)
+(check-sat)
+(assert (= v (_ bv1 8)))
+(set-info :status unsat)
+(check-sat)
+''',
     'names': '''(declare-const x1__fresh Int)
 (declare-const __v (_ BitVec 2))
 (declare-const _v (_ BitVec 4))
